@@ -85,6 +85,9 @@ func fields(impl string) []*fieldrun.Field {
 		g := &fieldrun.Field{Name: "goldilocksscalar", Impl: "ecc/goldilocks.Scalar.Red(unreduced) " + impl, P: P, Max: m1(pow2(448)), NRegs: 4,
 			Set: f.Set, Get: f.Get, Canon: f.Canon, IsZero: f.IsZero}
 		fs = append(fs, g)
+		// and the arithmetic on full-width operands: a Scalar is an exported [56]byte, Mul / Neg / Red / FromBytes take any value of it
+		fs = append(fs, &fieldrun.Field{Name: "goldilocksscalar", Impl: "ecc/goldilocks.Scalar(unreduced operands) " + impl, P: P, Max: m1(pow2(448)), NRegs: 4,
+			Set: f.Set, Get: f.Get, Mul: f.Mul, Add: f.Add, Sub: f.Sub, Neg: f.Neg, Canon: f.Canon, IsZero: f.IsZero})
 	}
 	{ // BLS12-381 base field and scalar field (Montgomery form inside; values through big-endian bytes)
 		var r [4]ff.Fp
